@@ -20,7 +20,7 @@ def write_obj(path, machine, syms, big_endian=False):
         info = (s["bind"] << 4) | (s["type"] & 0xf)
         if s["bind"] != 0 and first_global is None:
             first_global = i + 1
-        entries.append(struct.pack(e + "IBBHQQ", off, info, s["vis"] & 3, s.get("shndx", 1), s["value"] & (2**64 - 1), s["size"] & (2**64 - 1)))
+        entries.append(struct.pack(e + "IBBHQQ", off, info, (s["vis"] & 3) | (s.get("other", 0) & 0xfc), s.get("shndx", 1), s["value"] & (2**64 - 1), s["size"] & (2**64 - 1)))
     if first_global is None:
         first_global = len(entries)
     text = b"\x90" * 16
